@@ -195,6 +195,28 @@ func InRange(x, lo, hi int64, id string) int64 {
 	return x
 }
 
+// Within runs f and reports whether it returned within the given number of seconds. Under the engine f is run
+// in place and the result is false exactly when the call sequence would block on a lock it already holds.
+func Within(seconds int, f func()) bool {
+	done := make(chan struct{})
+	go func() {
+		defer close(done)
+		f()
+	}()
+	select {
+	case <-done:
+		return true
+	case <-time.After(time.Duration(seconds) * time.Second):
+		return false
+	}
+}
+
+// IgnoreGo tells the engine to skip go statements (only the calling path is analysed). No-op natively.
+func IgnoreGo() {}
+
+// Oracle names an environment decision for the engine's stubs (e.g. "process-cannot-be-started"). No-op natively.
+func Oracle(name string, v bool) {}
+
 // Panics runs f and reports whether it panicked (ordinary Go; interpreted by the engine as is).
 func Panics(f func()) (p bool) {
 	defer func() {
